@@ -127,6 +127,22 @@ prop("C14", "exploration", "reference block device (sparse in-memory disk) parsi
      "Non-trivial iff at least 2 non-blocking requests were outstanding at once and at least one request completed with its data checked; distinct by hash of (configuration, operation list).",
      [stage("checked")], [stage("checked"), stage("asan", scale=150, optional=True)])
 
+prop("C15", "exploration", "reference console device feeding a position-coded byte stream; every byte returned by the public API identifies its stream position",
+     "The real VirtIOConsole runs against a reference console whose receive stream is a function of the byte position, so any byte the API returns is checked against exactly the position it must have (loss, duplication and reordering all show as a mismatch); "
+     "the device counts outstanding receive chains at every observation point (API boundaries, spin hooks, load hooks) and compares 'bytes delivered' with 'bytes consumed' at the instant a new receive chain appears; every transmit chain is compared byte-wise with the caller's buffer; a final drain through read() must return everything delivered.",
+     DRV_NOTE + " Liveness of polling recv() alone after a bulk read is not part of the (safety) statement.",
+     "a case is one VirtIOConsole (transport model / model-no-unset / MMIO modern / MMIO legacy / PCI; INDIRECT_DESC x EVENT_IDX by case number; device policy serve-on-notify / polling / eager) driven through 600 (thorough 2000) API calls drawn from recv(peek), recv(pop), read (sizes 0,1,..600,4096,5000), fill_buf+consume, read_ready, ack_interrupt, send, send_bytes, embedded_io::Write, "
+     "with device chunks of 1..4096 bytes delivered at API boundaries, inside wait loops (spin hook) and inside the driver's used-index loads (dma hook). Non-trivial iff at least one received byte was checked; distinct by hash of (configuration, operation list).",
+     [stage("checked")], [stage("checked"), stage("asan", scale=150, optional=True)])
+
+prop("C16", "exploration", "reference network device with uniquely numbered frames + receive-buffer ownership ledger (conservation check at every quiescent point)",
+     "Both network drivers run against a reference NIC: every transmit chain is compared byte-wise with [zeroed header of the negotiated size][caller's frame] (raw transmit_begin: the caller's buffer verbatim); the device injects uniquely numbered frames of every length into posted buffers in arbitrary order and the driver's result is compared byte-wise; "
+     "at every quiescent point posted + completed-unreceived + caller-owned buffers must equal QUEUE_SIZE, no two active shares may overlap (a buffer posted twice), can_recv/can_send/poll_* must agree with the queue state, and after recycling everything exactly QUEUE_SIZE buffers must be posted.",
+     DRV_NOTE + " Buffer lengths respect the documented minimum (1526 bytes after rounding to whole words).",
+     "a case is one driver instance (VirtIONet or VirtIONetRaw; QUEUE_SIZE in {2,4,16}; with/without VERSION_1 => 12/10-byte header; INDIRECT_DESC x EVENT_IDX; random unsupported offload bits offered; transport model / model-legacy / MMIO modern / MMIO legacy / PCI; buffer length 1528..65535) driven through 500 (thorough 2000) steps of "
+     "frame injection bursts in arbitrary buffer order (frame length 0, 1, 1514, max, random), receive, recycle in arbitrary order, blocking send, raw receive_begin/poll/complete, receive_wait (device injects from the spin hook), raw transmit_begin/poll/complete. Non-trivial iff at least one received frame was compared; distinct by hash of (configuration, operation list).",
+     [stage("checked")], [stage("checked"), stage("asan", scale=150, optional=True)])
+
 NOT_YET = {}
 import re
 props = [json.loads(l) for l in open(os.path.join(ROOT, "properties.jsonl"))]
